@@ -507,3 +507,30 @@ Proof.
   intros Hn Hwf Hnd Hr Ha Ho. destruct (new_abs _ _ _ _ _ Hn) as (D & _ & Z & _).
   rewrite (oam_memory s0 h s' a Hwf Hnd D Hr Ha Ho). f_equal. apply amem_run_point. apply Z.
 Qed.
+
+(* ---- statement-level packaging for Properties/C06.v ---- *)
+Theorem decoder_ok a : a < 65536 ->
+  read_handler a = handler_of (spec_region a) /\ write_handler a = handler_of (spec_region a).
+Proof. intros H. split; [exact (decode_read_ok a H) | exact (decode_write_ok a H)]. Qed.
+
+Theorem dma_readback s h s' v :
+  forallb wf_bop h = true -> bus_run s h = Ok s' -> last_written 0xFF46 h = Some v -> v < 256 ->
+  peek s' 0xFF46 = Ok v.
+Proof.
+  intros Hwf Hr Hl Hv. change 0xFF46 with (reg_addr R_DMA) in *.
+  rewrite (register_masks R_DMA s h s' v 0xFF 0x00 eq_refl eq_refl Hwf Hr Hl Hv). f_equal.
+  rewrite N.lor_0_r. change 0xFF with (N.ones 8). rewrite N.land_ones. apply N.mod_small. exact Hv.
+Qed.
+
+Theorem unmapped_ff_ignored s a v :
+  a < 65536 -> is_unmapped a = true -> peek s a = Ok 255 /\ sys_write s a v = Ok s.
+Proof. intros Ha Hu. split; [exact (unmapped_reads_ff s a Ha Hu) | exact (unmapped_write s a v Ha Hu)]. Qed.
+
+Theorem ly_div_not_writable s v :
+  (sys_write s 0xFF44 v = sys_write s 0xFF44 0 /\ exists s', sys_write s 0xFF44 v = Ok s' /\ peek s' 0xFF44 = Ok 0) /\
+  (sys_write s 0xFF04 v = sys_write s 0xFF04 0 /\ exists s', sys_write s 0xFF04 v = Ok s' /\ peek s' 0xFF04 = Ok 0).
+Proof. split; [exact (ly_write_zero s v) | exact (div_write_zero s v)]. Qed.
+
+Theorem power_on_wf img ser aud c s0 : sys_new img ser aud = Ok (c, s0) ->
+  dma_idle s0 = true /\ ifl (s_ints s0) < 32 /\ p_mode (s_ppu s0) < 4.
+Proof. intros H. destruct (new_abs _ _ _ _ _ H) as (A & _ & _ & B & C). repeat split; assumption. Qed.
